@@ -313,8 +313,16 @@ pub fn run_scenario(s: &Scenario, ctl: &CtlRef, creator_err: CreatorErr) -> Vec<
                         }
                     }
                 }
-                let prefix: Vec<u8> = entries[n / 2].0.iter().take(1).copied().collect();
-                for rev in [false, true] {
+                // one-byte prefixes of the middle, first and last entry (distinct ones): the reverse
+                // iterator starts from the prefix's successor, which may itself be a stored key
+                let mut prefixes: Vec<Vec<u8>> = Vec::new();
+                for i in [n / 2, 0, n - 1] {
+                    let p: Vec<u8> = entries[i].0.iter().take(1).copied().collect();
+                    if !prefixes.contains(&p) {
+                        prefixes.push(p);
+                    }
+                }
+                for (prefix, rev) in prefixes.iter().flat_map(|p| [(p.clone(), false), (p.clone(), true)]) {
                     let Some(reader) = r.step("Reader::new(prefix)", || Reader::new(SFile::with_data(ctl, bytes.clone())), dig_none) else {
                         return r.steps;
                     };
@@ -469,6 +477,25 @@ pub fn scenarios(thorough: bool) -> Vec<(String, Scenario)> {
         v.push(("write-zlib-L2".into(), Scenario::Write { file: f_small(2, 2) }));
         v.push(("write-lz4-L0".into(), Scenario::Write { file: f_small(3, 0) }));
         v.push(("write-zstd-L1".into(), Scenario::Write { file: f_small(4, 1) }));
+    }
+    // a prefix whose byte-successor is itself a stored key that opens a data block (the reverse
+    // prefix iterator steps back across the block boundary on its first call), and a block larger
+    // than 64 KiB (whatever a block loader does differently for big blocks)
+    {
+        let h = vlib::report::hex;
+        let long = |b: u8, t: u8| {
+            let mut k = vec![b; 600];
+            k[599] = t;
+            k
+        };
+        let e: Vec<(String, String)> = vec![(h(&long(b'a', 1)), h(&[1])), (h(&long(b'a', 2)), h(&[2])), (h(b"b"), h(&[3])), (h(&long(b'b', 1)), h(&[4])), (h(b"c"), h(&[5]))];
+        v.push(("read-revprefix-successor-opens-a-block".into(), Scenario::Read { file: FileSpec::new(FileCfg::layout(Some(1024), Some(1), 1), EntrySpec::Explicit(e)), v1: false }));
+        for codec in [0u8, 5] {
+            v.push((
+                format!("read-block-above-64k-codec{codec}"),
+                Scenario::Read { file: FileSpec::new(FileCfg::layout(Some(1024), None, 0).with_codec(codec, 0), EntrySpec::Explicit(vec![(h(b"a"), h(&[7])), (h(b"b"), h(&(0..70_000u32).map(|i| (i * 31 % 251) as u8).collect::<Vec<u8>>())), (h(b"c"), h(&[9]))])), v1: false },
+            ));
+        }
     }
     v.push(("merge-stream".into(), Scenario::Merge { masks: vec![0b0111, 0b1110, 0b0101], cfgs: vec![0, 1, 0], into_writer: false }));
     v.push(("merge-into-writer".into(), Scenario::Merge { masks: vec![0b1011, 0b0110, 0b1101], cfgs: vec![1, 0, 2], into_writer: true }));
